@@ -86,6 +86,18 @@ theorem decode_chunked_eq (s : Bytes) (h : Valid s) :
     decodeLoop s.length s 0 = some (ofBE 58 (s.map b58)) :=
   decodeLoop_eq _ _ _ (Nat.le_refl _) h
 
+/-- `Decode` ranges over the runes of each ten-byte chunk (UTF-8 decoding, `v > 255` guard,
+    `b58[v]` lookup); on every byte string that is the same as looking each *byte* up in the
+    table: a non-ASCII byte always ends in the early return. -/
+theorem decode_runes_eq_bytes (total : Nat) (chunk : Bytes) :
+    chunkRunes chunk.length total chunk = chunkTotal total chunk :=
+  chunkRunes_eq _ _ _ (Nat.le_refl _)
+
+-- U+0141 (c5 81) has low byte 0x41 = 'A', a wide rune cut by a chunk end, a lone lead byte
+example : decode [50, 0xc5, 0x81, 51] = [] ∧ decode [0xc5] = [] ∧ decode [50, 0xe2, 0x82] = [] := by decide
+example : decodeRune 0xc5 [0x81] = (0x141, 2) ∧ decodeRune 0xe2 [0x82, 0xac] = (0x20ac, 3) ∧
+    decodeRune 0xc0 [0x80] = (0xFFFD, 1) ∧ decodeRune 0xed [0xa0, 0x80] = (0xFFFD, 1) := by decide
+
 /-- The `58^10`-at-a-time loop of `Encode` is plain repeated division by 58. -/
 theorem encode_chunked_eq (x : Nat) : encodeLoop x x = (digitsLE 58 x).map alpha := by
   rw [encodeLoop_eq _ _ (Nat.le_refl _), digitsLE_eq (by decide)]
